@@ -6,7 +6,7 @@ OPS1 = ["vec_znx_copy", "vec_znx_negate", "vec_znx_add", "vec_znx_sub", "vec_znx
 
 
 def _jobs(tier):
-    mult = 1 if tier == "quick" else 20
+    mult = 1 if tier == "quick" else 200
     jobs = []
     for k in range(1, 17):
         jobs.append(dict(sub="vec", count=geo(k, 5000, 7, 40) * mult, fix=dict(k=k)))
